@@ -7,6 +7,7 @@ WORLDS = {
         'rewrite': [('.', 'sync,sync/atomic'), ('runtime', 'sync,sync/atomic')],
         'needs_templ': True,
         'prep_hook': 'render_corpus',
+        'post_build_hook': 'render_devfiles',
         'export_files': {'runtime/zz_verif_export.go': '''package runtime
 
 // SetDevelopmentMode switches development-mode rendering (normally fixed at start-up from TEMPL_DEV_MODE).
@@ -107,7 +108,7 @@ PROPS = {
         'level': 'exploration',
         'builds': {'default': {}},
         'tiers': {
-            'quick': {'chunk': 64, 'runs': 6000, 'params': {'max_nodes': 30, 'max_contexts': 4, 'max_steps': 2000}, 'per_run_timeout': 5.0},
+            'quick': {'chunk': 64, 'runs': 40000, 'params': {'max_nodes': 30, 'max_contexts': 4, 'max_steps': 2000}, 'per_run_timeout': 5.0},
             'thorough': {'chunk': 64, 'runs': 1500000, 'params': {'max_nodes': 60, 'max_contexts': 5, 'max_steps': 5000}, 'per_run_timeout': 10.0, 'shrink_budget_s': 300},
         },
         'rule': 'one run = a finite universe (2-7 script values over 5 script templates incl. JSFuncCall, 2-5 css components, 1-3 once handles, some created WithComponent) and '
@@ -126,7 +127,7 @@ PROPS = {
         'level': 'exploration',
         'builds': {'default': {}},
         'tiers': {
-            'quick': {'chunk': 64, 'runs': 8000, 'params': {'max_nodes': 40, 'max_contexts': 3, 'max_steps': 2000}, 'per_run_timeout': 5.0},
+            'quick': {'chunk': 64, 'runs': 40000, 'params': {'max_nodes': 40, 'max_contexts': 3, 'max_steps': 2000}, 'per_run_timeout': 5.0},
             'thorough': {'chunk': 64, 'runs': 1500000, 'params': {'max_nodes': 80, 'max_contexts': 4, 'max_steps': 5000}, 'per_run_timeout': 10.0, 'shrink_budget_s': 300},
         },
         'rule': 'one run = 1-3 contexts (tasks interleaved at writer seams), each rendering 1-2 tape-drawn call trees into one writer: calls with / without block x callees '
